@@ -5,6 +5,7 @@ import Driver.NetCmd
 import Driver.PathsCmd
 import Driver.GuardCmd
 import Driver.AutoCmd
+import Driver.DdeCmd
 open Lean PyRates.Driver
 
 def dispatch (comp : String) (j : Json) : Except String Json :=
@@ -18,6 +19,7 @@ def dispatch (comp : String) (j : Json) : Except String Json :=
   | "paths" => pathsCmd j
   | "guard" => guardCmd j
   | "auto" => autoCmd j
+  | "dde" => ddeCmd j
   | _ => .error s!"unknown component {comp}"
 
 partial def loop (h : IO.FS.Stream) (out : IO.FS.Stream) : IO Unit := do
